@@ -247,8 +247,9 @@ theorem suffix_drop {r d : Bytes} (h : r <:+ d) : d.drop (d.length - r.length) =
   obtain ⟨pre, rfl⟩ := h
   simp
 
-theorem paramDefBody_eff {mixed : Bool} {tape : List Tok} {parent : Nat} {st' : St} {data d' : Bytes}
-    (h : paramDefBody mixed tape parent data = .cont st' d') : Eff tape data st'.tape d' := by
+theorem paramDefBody_eff_ne {mixed : Bool} {tape : List Tok} {parent : Nat} {st' : St} {data d' : Bytes}
+    (h : paramDefBody mixed tape parent data = .cont st' d') :
+    ∃ new, new ≠ [] ∧ slices st'.tape = slices tape ++ new ∧ d' <:+ data ∧ Good data d' new := by
   unfold paramDefBody at h
   simp only at h
   generalize hk : (2 + if decide (data[2]? = some 33) = true then 1 else 0) = k at h
@@ -318,11 +319,11 @@ theorem paramDefBody_eff {mixed : Bool} {tape : List Tok} {parent : Nat} {st' : 
                   all_goals
                     simp only [Step.cont.injEq] at h
                     obtain ⟨rfl, rfl⟩ := h
-                  · refine ⟨_, ?_, (List.suffix_cons c rest).trans ((s2.trans c5).trans c4), good.mono (List.suffix_cons c rest)⟩
+                  · refine ⟨_, List.cons_ne_nil _ _, ?_, (List.suffix_cons c rest).trans ((s2.trans c5).trans c4), good.mono (List.suffix_cons c rest)⟩
                     simp only
                     rw [slices_snoc_some (t := .unquoted _) rfl, slices_snoc_some (hsl _)]
                     simp
-                  · refine ⟨_, ?_, (s2.trans c5).trans c4, good⟩
+                  · refine ⟨_, List.cons_ne_nil _ _, ?_, (s2.trans c5).trans c4, good⟩
                     simp only
                     rw [show tape ++ [paramTok (decide (data[2]? = some 33)) ⟨(data.drop k).length, name⟩] ++
                         [Tok.object parent false, Tok.unquoted ⟨d4.length, kv⟩] =
@@ -331,6 +332,20 @@ theorem paramDefBody_eff {mixed : Bool} {tape : List Tok} {parent : Nat} {st' : 
                     rw [slices_snoc_some (t := .unquoted _) rfl, slices_snoc_none (t := .object _ _) rfl,
                       slices_snoc_some (hsl _)]
                     simp
+
+theorem paramDefBody_eff {mixed : Bool} {tape : List Tok} {parent : Nat} {st' : St} {data d' : Bytes}
+    (h : paramDefBody mixed tape parent data = .cont st' d') : Eff tape data st'.tape d' := by
+  obtain ⟨new, _, h1, h2, h3⟩ := paramDefBody_eff_ne h
+  exact ⟨new, h1, h2, h3⟩
+
+theorem paramDefBody_shrink {mixed : Bool} {tape : List Tok} {parent : Nat} {st' : St} {data d' : Bytes}
+    (h : paramDefBody mixed tape parent data = .cont st' d') : d'.length < data.length := by
+  obtain ⟨new, hne, _, _, hg⟩ := paramDefBody_eff_ne h
+  cases new with
+  | nil => exact absurd rfl hne
+  | cons s _ =>
+    obtain ⟨a, b, _, _⟩ := hg.2 s (by simp)
+    omega
 
 theorem Eff.of_slices_eq {T0 T T' : List Tok} {d d' : Bytes} (h : Eff T0 d T' d')
     (hs : slices T0 = slices T) : Eff T d T' d' := by
